@@ -6,25 +6,31 @@ across the BTP <-> GN boundary; payload provenance on both sides; delivery guard
 only with an indication); the location-service buffering protocol; uniform treatment of the security switch at
 origination.  Hemisphere arithmetic: C02.signed.  Geometry: C07.  Duplicates / own address: C06.
 Does not decide "exactly once / in request order" over histories, nor byte identity as a value fact.
+
+How values are compared: every expression is first expanded through the flow (locals -> reaching definitions), then
+brought into a normal form by `Sym` (records: constructions of dataclasses are evaluated field by field, also through
+pure re-packaging helpers - classmethods / copy methods whose body is `locals; return <construction>` - and through
+dataclasses.replace; nested open-ended slices are composed, x[a:][b:] == x[a+b:]; getattr(x, 'f', d) on a typed record
+is x.f) and compared through the canonical text of sem.cx.  Guards are compared as canonical atoms (sem.atoms).
 """
 from __future__ import annotations
 
 import ast
-import re
+import copy
+from typing import Optional
 
 from ..prog import AnalysisError, ClassInfo, FuncInfo, dotted, unparse
 from ..layout import writer_table
-from ..match import pretty, CallSummaries
+from ..match import pretty
 from ..spec import gn_layouts as S
+from .. import sem
 from . import gnutil as G
 
 PROP = "C01"
 ROUTER = "geonet.router.Router"
 BTPR = "btp.router.Router"
-
-
-def norm(s):
-    return re.sub(r"\s+", "", s)
+SHB_MEDIA_OCTETS = 4          # EN 302 636-4-1 9.8.4: SHB extended header = SO PV (24) + 4 media-dependent octets
+BTP_HEADER_OF_NH = {"BTP_A": "BTPAHeader", "BTP_B": "BTPBHeader"}    # EN 302 636-5-1 clause 7 / CommonNH code points
 
 
 def codec_len(ctx, cls_suffix: str) -> int:
@@ -32,225 +38,884 @@ def codec_len(ctx, cls_suffix: str) -> int:
     return S.positions(layout)[1] // 8
 
 
+def show(e) -> str:
+    return pretty(unparse(e)) if e is not None else "<absent>"
+
+
+# ---------------------------------------------------------------------------------------------------------------
+# symbolic normal form
+# ---------------------------------------------------------------------------------------------------------------
+class Sym:
+    """Normal form of expanded expressions; see module docstring.  Contexts: the function the expression was taken
+    from plus every helper whose body was inlined (names are resolved in the first context that knows them)."""
+
+    def __init__(self, ctx, fi: FuncInfo):
+        self.P = ctx.prog
+        self.ctxs = [fi]
+
+    # ------------------------------------------------------------ resolution
+    def targets(self, call: ast.Call) -> list:
+        q = getattr(call.func, "_ciq", None)
+        if q:
+            return [self.P.classes[q]]
+        for f in reversed(self.ctxs):
+            try:
+                t = [x for x in self.P.call_targets(f, call, count=False, cha=False) if not isinstance(x, str)]
+            except Exception:
+                t = []
+            if t:
+                return t
+        return []
+
+    def types(self, e: ast.AST) -> set:
+        out = set()
+        for f in reversed(self.ctxs):
+            out = {t for t in self.P.expr_types(f, e) if isinstance(t, str)}
+            if out:
+                break
+        return out
+
+    def fold_int(self, e) -> Optional[int]:
+        if e is None:
+            return None
+        for f in self.ctxs:
+            v = self.P.try_fold(f.module, e)
+            if isinstance(v, int) and not isinstance(v, bool):
+                return v
+        return None
+
+    # ------------------------------------------------------------ records
+    def all_fields(self, ci: ClassInfo) -> list:
+        out = []
+        for c in reversed(ci.mro()):
+            for f, (ann, _) in c.fields.items():
+                if ann is not None and f not in out:
+                    out.append(f)
+        return out
+
+    def _default(self, ci: ClassInfo, name: str) -> ast.AST:
+        for c in ci.mro():
+            if name in c.fields:
+                d = c.fields[name][1]
+                if d is None:
+                    break
+                if isinstance(d, ast.Call) and (dotted(d.func) or "").split(".")[-1] == "field":
+                    for kw in d.keywords:
+                        if kw.arg == "default_factory":
+                            n = ast.Call(func=copy.deepcopy(kw.value), args=[], keywords=[])
+                            n._default = True
+                            return n
+                        if kw.arg == "default":
+                            n = copy.deepcopy(kw.value)
+                            n._default = True
+                            return n
+                    break
+                n = copy.deepcopy(d)
+                n._default = True
+                return n
+        n = ast.Name(id="<required>", ctx=ast.Load())
+        n._default = True
+        return n
+
+    def _ctor(self, ci: ClassInfo, call: ast.Call):
+        if not ci.dataclass or any("__init__" in c.methods for c in ci.mro()):
+            return None
+        names = self.all_fields(ci)
+        given = {}
+        for i, a in enumerate(call.args):
+            if isinstance(a, ast.Starred) or i >= len(names):
+                return None
+            given[names[i]] = a
+        for kw in call.keywords:
+            if kw.arg is None or kw.arg not in names:
+                return None
+            given[kw.arg] = kw.value
+        return ci, {n: (given[n] if n in given else self._default(ci, n)) for n in names}
+
+    def _is_dc_replace(self, func: ast.AST) -> bool:
+        d = dotted(func)
+        if d is None:
+            return False
+        for f in self.ctxs:
+            imp = f.module.imports.get(d.split(".")[0])
+            if imp == ("attr", "dataclasses", "replace") and "." not in d:
+                return True
+            if imp == ("mod", "dataclasses") and d.split(".")[1:] == ["replace"]:
+                return True
+        return False
+
+    def inline(self, call: ast.Call, callee: FuncInfo, skeleton: bool = False):
+        """`return` expression of a helper of the shape `[name = expr]*; return expr`, parameters replaced by the
+        arguments of `call` (self -> receiver, cls -> the class); None for any other shape.  skeleton: parameters stay
+        as names (used to judge the helper's own body)."""
+        body = [b for b in callee.node.body if not (isinstance(b, ast.Expr) and isinstance(b.value, ast.Constant))]
+        if not body or not isinstance(body[-1], ast.Return) or body[-1].value is None:
+            return None
+        locs = {}
+        for b in body[:-1]:
+            if isinstance(b, ast.Assign) and len(b.targets) == 1 and isinstance(b.targets[0], ast.Name):
+                locs[b.targets[0].id] = b.value
+            elif isinstance(b, ast.AnnAssign) and isinstance(b.target, ast.Name) and b.value is not None:
+                locs[b.target.id] = b.value
+            elif isinstance(b, (ast.Import, ast.ImportFrom, ast.Pass)):
+                continue
+            else:
+                return None
+        a = callee.node.args
+        if a.vararg or a.kwarg or a.kwonlyargs:
+            return None
+        params = callee.params
+        off = 1 if callee.kind in ("method", "classmethod") and params else 0
+        amap = {}
+        for i, x in enumerate(call.args):
+            if isinstance(x, ast.Starred) or i + off >= len(params):
+                return None
+            amap[params[i + off]] = x
+        for kw in call.keywords:
+            if kw.arg is None or kw.arg not in params[off:]:
+                return None
+            amap[kw.arg] = kw.value
+        defaults = a.defaults
+        for p_, d_ in zip(params[len(params) - len(defaults):], defaults):
+            amap.setdefault(p_, d_)
+        if any(p_ not in amap for p_ in params[off:]):
+            return None
+        if off and callee.kind == "method":
+            if not isinstance(call.func, ast.Attribute):
+                return None
+            amap[params[0]] = call.func.value
+        elif off and callee.kind == "classmethod":
+            cq = callee.cls.qual
+            if isinstance(call.func, ast.Attribute):
+                ts = [t[5:] for t in self.types(call.func.value) if t.startswith("type:") and t[5:] in self.P.classes]
+                if len(ts) == 1:
+                    cq = ts[0]
+            n = ast.Name(id=self.P.classes[cq].name, ctx=ast.Load())
+            n._ciq = cq
+            amap[params[0]] = n
+        if skeleton:
+            amap = {k: (v if getattr(v, "_ciq", None) else ast.Name(id=k, ctx=ast.Load())) for k, v in amap.items()}
+
+        class Sub(ast.NodeTransformer):
+            def visit_Name(s2, n):
+                if n.id in locs:
+                    return s2.visit(copy.deepcopy(locs[n.id]))
+                if n.id in amap:
+                    return copy.deepcopy(amap[n.id])
+                return n
+
+            def visit_Lambda(s2, n):
+                return n
+        return Sub().visit(copy.deepcopy(body[-1].value))
+
+    def _repack(self, v: ast.AST, depth: int) -> bool:
+        """The value only moves data around (attribute chains, constant slices, len, nested constructions)."""
+        if isinstance(v, (ast.Name, ast.Constant)):
+            return True
+        if isinstance(v, ast.Attribute):
+            return self._repack(v.value, depth)
+        if isinstance(v, ast.Subscript):
+            sl = v.slice
+            if isinstance(sl, ast.Slice):
+                ok = all(x is None or self.fold_int(x) is not None for x in (sl.lower, sl.upper)) and sl.step is None
+            else:
+                ok = isinstance(sl, ast.Constant)
+            return ok and self._repack(v.value, depth)
+        if isinstance(v, ast.Call):
+            d = dotted(v.func)
+            args = list(v.args) + [k.value for k in v.keywords]
+            if d in ("len", "getattr"):
+                return all(self._repack(x, depth) for x in args)
+            if depth > 0 and self.record(v, depth - 1) is not None:
+                return True
+            tg = self.targets(v)
+            if len(tg) == 1 and isinstance(tg[0], ClassInfo):
+                return all(self._repack(x, depth) for x in args)
+        return False
+
+    def record(self, e: ast.AST, depth: int = 5):
+        """(ClassInfo, {field: value expression}) when `e` certainly evaluates to a fresh dataclass instance whose
+        fields are known expressions; None otherwise."""
+        if depth <= 0 or not isinstance(e, ast.Call):
+            return None
+        if self._is_dc_replace(e.func):
+            if len(e.args) != 1 or any(kw.arg is None for kw in e.keywords):
+                return None
+            base = self.record(self.norm(e.args[0]), depth - 1)
+            if base is None:
+                return None
+            ci, f = base
+            f = dict(f)
+            for kw in e.keywords:
+                if kw.arg not in f:
+                    return None
+                f[kw.arg] = kw.value
+            return ci, f
+        tg = self.targets(e)
+        if len(tg) != 1:
+            return None
+        t = tg[0]
+        if isinstance(t, ClassInfo):
+            return self._ctor(t, e)
+        if isinstance(t, FuncInfo) and t.kind in ("method", "classmethod", "staticmethod", "function"):
+            inl = self.inline(e, t)
+            if inl is None:
+                return None
+            added = t not in self.ctxs
+            if added:
+                self.ctxs.append(t)
+            sk = self.inline(e, t, skeleton=True)
+            if isinstance(sk, ast.Call) and self._is_dc_replace(sk.func):
+                pure = all(self._repack(v, depth - 1) for v in list(sk.args) + [k.value for k in sk.keywords])
+            else:
+                skel = self.record(sk, depth - 1)
+                pure = skel is not None and all(self._repack(v, depth - 1) for v in skel[1].values())
+            r = self.record(inl, depth - 1) if pure else None
+            if r is None and added:
+                self.ctxs.remove(t)
+            return r
+        return None
+
+    # ------------------------------------------------------------ normal form
+    def norm(self, e: ast.AST, depth: int = 10) -> ast.AST:
+        n = self._norm(e, depth)
+        if getattr(e, "_default", False) and n is not None and not getattr(n, "_default", False):
+            if n is e:
+                n = copy.copy(e)
+            n._default = True
+        return n
+
+    def _norm(self, e: ast.AST, depth: int) -> ast.AST:
+        if e is None or depth <= 0:
+            return e
+        if isinstance(e, ast.Attribute):
+            v = self.norm(e.value, depth - 1)
+            rec = self.record(v)
+            if rec is not None and e.attr in rec[1]:
+                return self.norm(rec[1][e.attr], depth - 1)
+            return ast.Attribute(value=v, attr=e.attr, ctx=ast.Load())
+        if isinstance(e, ast.Subscript):
+            v = self.norm(e.value, depth - 1)
+            sl = e.slice
+            if isinstance(sl, ast.Slice) and sl.step is None:
+                lo = 0 if sl.lower is None else self.fold_int(sl.lower)
+                hi = None if sl.upper is None else self.fold_int(sl.upper)
+                if lo is not None and lo >= 0 and (sl.upper is None or (hi is not None and hi >= 0)):
+                    if isinstance(v, ast.Subscript) and isinstance(v.slice, ast.Slice) and getattr(v, "_const", False):
+                        a = v.slice.lower.value
+                        b = v.slice.upper.value if v.slice.upper is not None else None
+                        stops = [x for x in (b, (a + hi) if hi is not None else None) if x is not None]
+                        lo, hi, v = a + lo, (min(stops) if stops else None), v.value
+                    n = ast.Subscript(value=v, slice=ast.Slice(lower=ast.Constant(lo), upper=ast.Constant(hi) if hi is not None else None,
+                                                               step=None), ctx=ast.Load())
+                    n._const = True
+                    return n
+                return ast.Subscript(value=v, slice=ast.Slice(lower=self.norm(sl.lower, depth - 1), upper=self.norm(sl.upper, depth - 1),
+                                                              step=self.norm(sl.step, depth - 1)), ctx=ast.Load())
+            return ast.Subscript(value=v, slice=self.norm(sl, depth - 1), ctx=ast.Load())
+        if isinstance(e, ast.Call):
+            if dotted(e.func) == "getattr" and len(e.args) in (2, 3) and not e.keywords and isinstance(e.args[1], ast.Constant) \
+                    and isinstance(e.args[1].value, str):
+                obj = self.norm(e.args[0], depth - 1)
+                name = e.args[1].value
+                rec = self.record(obj)
+                known = rec is not None and name in rec[1]
+                if not known:
+                    ts = [t for t in self.types(obj) if t in self.P.classes]
+                    known = bool(ts) and all(name in self.all_fields(self.P.classes[t]) for t in ts)
+                if known:
+                    return self.norm(ast.Attribute(value=obj, attr=name, ctx=ast.Load()), depth - 1)
+            f = e.func
+            if isinstance(f, ast.Attribute):
+                f = ast.Attribute(value=self.norm(f.value, depth - 1), attr=f.attr, ctx=ast.Load())
+            n = ast.Call(func=f, args=[self.norm(a, depth - 1) for a in e.args],
+                         keywords=[ast.keyword(arg=k.arg, value=self.norm(k.value, depth - 1)) for k in e.keywords])
+            return n
+        if isinstance(e, (ast.BinOp, ast.BoolOp, ast.Compare, ast.IfExp, ast.Tuple, ast.List, ast.UnaryOp, ast.Starred)):
+            n = copy.copy(e)
+            for fld, val in ast.iter_fields(e):
+                if isinstance(val, ast.expr):
+                    setattr(n, fld, self.norm(val, depth - 1))
+                elif isinstance(val, list) and val and isinstance(val[0], ast.expr):
+                    setattr(n, fld, [self.norm(x, depth - 1) for x in val])
+            return n
+        return e
+
+    def cx(self, e) -> str:
+        if isinstance(e, str):
+            e = ast.parse(e, mode="eval").body
+        return sem.cx(self.norm(e))
+
+    def same(self, a, b) -> bool:
+        return self.cx(a) == self.cx(b)
+
+    def cslice(self, e: ast.AST):
+        """(canonical base, start, stop) of a normalised byte-string expression."""
+        n = self.norm(e)
+        if isinstance(n, ast.Subscript) and getattr(n, "_const", False):
+            return sem.cx(n.value), n.slice.lower.value, (n.slice.upper.value if n.slice.upper is not None else None)
+        return sem.cx(n), 0, None
+
+
+def resolved(e: ast.AST) -> bool:
+    """No version token left: every local was replaced by an expression over parameters / attributes."""
+    return not any(isinstance(n, ast.Name) and "@" in n.id for n in ast.walk(e))
+
+
+def is_default(e: ast.AST) -> bool:
+    return bool(getattr(e, "_default", False))
+
+
+def bind_params(callee: FuncInfo, call: ast.Call) -> dict:
+    params = callee.params
+    off = 1 if callee.kind in ("method", "classmethod") and params else 0
+    out = {}
+    for i, a in enumerate(call.args):
+        if i + off < len(params):
+            out[params[i + off]] = a
+    for kw in call.keywords:
+        if kw.arg:
+            out[kw.arg] = kw.value
+    return out
+
+
+def eq_atom(a: ast.AST, b: ast.AST) -> str:
+    return sem.atoms(ast.Compare(left=a, ops=[ast.Eq()], comparators=[b]), True)[0]
+
+
+def attr_chain(base: ast.AST, *names) -> ast.AST:
+    for n in names:
+        base = ast.Attribute(value=base, attr=n, ctx=ast.Load())
+    return base
+
+
+def src(s: str) -> ast.AST:
+    return ast.parse(s, mode="eval").body
+
+
+def calls_to(P, fi: FuncInfo, target: FuncInfo) -> list:
+    return [c for c in P.calls_in(fi) if any(t is target for t in P.call_targets(fi, c, count=False))]
+
+
+# ---------------------------------------------------------------------------------------------------------------
+# framing and indication provenance
+# ---------------------------------------------------------------------------------------------------------------
+def dispatch_pins(ctx, pch: FuncInfo, h) -> dict:
+    """Header type / sub-type established by the common-header dispatcher at the call of handler h:
+    {'ht': enum node, 'hst': enum node} (absent when not pinned on every call)."""
+    P = ctx.prog
+    flp = ctx.flows.get(pch)
+    chp = [p for p, ts in P.param_types(h.fi).items() if any(isinstance(t, str) and t.endswith(".CommonHeader") for t in ts)]
+    out = None
+    for c in calls_to(P, pch, h.fi):
+        b = bind_params(h.fi, c)
+        pins = {}
+        if chp and chp[0] in b:
+            st = flp.state_at(c)
+            xarg = flp.expand(b[chp[0]], st)
+            for f in st.facts:
+                if f.kind != "cond" or not f.pol or not isinstance(f.xnode, ast.Compare) or len(f.xnode.ops) != 1 \
+                        or not isinstance(f.xnode.ops[0], ast.Eq):
+                    continue
+                for x, y in ((f.xnode.left, f.xnode.comparators[0]), (f.xnode.comparators[0], f.xnode.left)):
+                    for fld in ("ht", "hst"):
+                        if sem.cx(x) == sem.cx(attr_chain(xarg, fld)):
+                            v = P.try_fold(pch.module, y)
+                            if isinstance(v, tuple) and v and v[0] == "enum":
+                                pins[fld] = v
+        out = pins if out is None else {k: v for k, v in out.items() if pins.get(k) == v}
+    return out or {}
+
+
 def frames(ctx):
     P = ctx.prog
-    # ---- GN dispatcher: basic 4, common 8
-    for fname, cls, n in (("process_basic_header", "geonet.basic_header.BasicHeader", 4),
-                          ("process_common_header", "geonet.common_header.CommonHeader", 8)):
+    # ---- GN dispatcher: basic 4, common 8: header decoded from packet[0:N], every later stage receives packet[N:]
+    router = P.cls(ROUTER)
+    for fname, cls in (("process_basic_header", "geonet.basic_header.BasicHeader"),
+                       ("process_common_header", "geonet.common_header.CommonHeader")):
         fi = P.func(f"{ROUTER}.{fname}")
+        fl = ctx.flows.get(fi)
+        sym = Sym(ctx, fi)
         want = codec_len(ctx, cls)
-        src = norm(unparse(fi.node))
-        head = f"decode_from_bytes(packet[0:{want}])" in src
-        tail = (f"=packet[{want}:]" in src)
-        ctx.ob("C01.frame", fi.short(), "strip", head and tail and want == n,
-               f"{fname} decodes packet[0:{want}] and continues with packet[{want}:] (codec length {want})" if head and tail else
-               f"{fname}: header slice / residual do not both use the codec length {want}", fi.loc)
+        ci = P.cls(cls)
+        decs = [c for c in P.calls_in(fi) if any(isinstance(t, FuncInfo) and t.cls is ci and t.name.startswith("decode")
+                                                 for t in P.call_targets(fi, c, count=False))]
+        if len(decs) != 1 or not fi.params[1:]:
+            raise AnalysisError(f"C01: {fname}: {len(decs)} {ci.name} decode calls (confirmed: 1)")
+        pk = fi.params[1]
+        got = sym.cslice(fl.expand(decs[0].args[0], fl.state_at(decs[0]))) if decs[0].args else None
+        ctx.ob("C01.frame", fi.short(), "strip:header", got == (pk, 0, want),
+               f"{fname} decodes {ci.name} from `{show(decs[0].args[0]) if decs[0].args else ''}` = {got}; the codec is {want} octets "
+               f"(`{pk}[0:{want}]`)", f"{fi.module.rel}:{decs[0].lineno}")
+        n_next = 0
+        for c in P.calls_in(fi):
+            tg = [t for t in P.call_targets(fi, c, count=False) if isinstance(t, FuncInfo) and t.cls is router]
+            if not tg or not c.args:
+                continue
+            st = fl.state_at(c)
+            for alt in fl.alternatives(c.args[0], st):
+                base, lo, hi = sym.cslice(alt)
+                if base != pk:
+                    continue
+                n_next += 1
+                ctx.ob("C01.frame", fi.short(), f"strip:residual:{tg[0].name}", (lo, hi) == (want, None),
+                       f"{tg[0].name} receives `{show(sym.norm(alt))}`; the next stage starts after the {want}-octet {ci.name} "
+                       f"(`{pk}[{want}:]`)", f"{fi.module.rel}:{c.lineno}")
+        if n_next == 0:
+            ctx.ob("C01.frame", fi.short(), "strip:residual", False, f"{fname} hands no residual of `{pk}` to a next stage", fi.loc)
     # ---- extended headers
+    pch = P.func(f"{ROUTER}.process_common_header")
     for h in G.receive_handlers(ctx):
         fl = ctx.flows.get(h.fi)
+        sym = Sym(ctx, h.fi)
         cls = h.ext_cls
         key = [k for k in S.CODECS if k.endswith("." + cls.name)]
         want = codec_len(ctx, key[0])
-        arg = norm(unparse(h.decode_call.args[0]))
-        ok_head = arg == f"packet[0:{want}]"
-        ctx.ob("C01.frame", h.fi.short(), "header-slice", ok_head,
-               f"{cls.name} is {want} octets; handler decodes `{arg}`", f"{h.fi.module.rel}:{h.decode_call.lineno}")
+        pk = h.fi.params[1] if len(h.fi.params) > 1 else "?"
+        xdec = fl.expand(h.decode_call, fl.state_at(h.decode_call))
+        got = sym.cslice(xdec.args[0]) if xdec.args else None
+        ctx.ob("C01.frame", h.fi.short(), "header-slice", got == (pk, 0, want),
+               f"{cls.name} is {want} octets; handler decodes `{show(h.decode_call.args[0]) if h.decode_call.args else ''}` = {got}",
+               f"{h.fi.module.rel}:{h.decode_call.lineno}")
+        pins = None
+        chp = [p for p, ts in P.param_types(h.fi).items() if any(isinstance(t, str) and t.endswith(".CommonHeader") for t in ts)]
         # residual payload used by the sinks
         for s in G.sinks_of(ctx, h):
             if s.kind != "deliver" or s.fi is not h.fi:
                 continue
             st = fl.state_at(s.node)
-            kws = {kw.arg: kw.value for kw in s.node.keywords if kw.arg}
-            data = norm(pretty(unparse(fl.expand(kws["data"], st))))
-            extra = 4 if cls.name == "LongPositionVector" else 0       # SHB media-dependent data
-            want_data = f"packet[{want}:]" + (f"[{extra}:]" if extra else "")
-            ctx.ob("C01.ind-fwd", h.fi.short(), "data", data == want_data,
-                   f"indication data = `{data}`; payload starts after the {want}-octet extended header" +
-                   (f" and the {extra} media-dependent octets" if extra else "") + f" (`{want_data}`)", f"{h.fi.module.rel}:{s.node.lineno}")
-            ln = norm(pretty(unparse(fl.expand(kws["length"], st))))
-            ctx.ob("C01.ind-fwd", h.fi.short(), "length", ln == f"len({want_data})", f"length = `{ln}`", f"{h.fi.module.rel}:{s.node.lineno}")
-            dec = norm(pretty(unparse(fl.expand(h.decode_call, fl.state_at(h.decode_call)))))
-            spv = norm(pretty(unparse(fl.expand(kws["source_position_vector"], st))))
-            want_pv = dec if cls.name == "LongPositionVector" else f"{dec}.so_pv"
-            ctx.ob("C01.ind-fwd", h.fi.short(), "source-pv", spv == want_pv,
-                   f"source_position_vector = `{spv[:70]}`; must be the packet's SO PV", f"{h.fi.module.rel}:{s.node.lineno}")
-            for k, w in (("upper_protocol_entity", "common_header.nh"), ("traffic_class", "common_header.tc")):
-                v = norm(pretty(unparse(fl.expand(kws[k], st))))
-                ctx.ob("C01.ind-fwd", h.fi.short(), k, v == w, f"{k} = `{v}` (must be {w})", f"{h.fi.module.rel}:{s.node.lineno}")
-            ptt = norm(pretty(unparse(fl.expand(kws["packet_transport_type"], st))))
-            ht = {"gn_data_indicate_shb": "HeaderType.TSB", "gn_data_indicate_tsb": "HeaderType.TSB",
-                  "gn_data_indicate_gbc": "HeaderType.GEOBROADCAST", "gn_data_indicate_gac": "HeaderType.GEOANYCAST",
-                  "gn_data_indicate_guc": "HeaderType.GEOUNICAST"}.get(h.fi.name)
-            if ht:
-                ctx.ob("C01.ind-fwd", h.fi.short(), "transport-type", f"header_type={ht}" in ptt,
-                       f"packet_transport_type = `{ptt[:90]}`", f"{h.fi.module.rel}:{s.node.lineno}")
+            loc = f"{h.fi.module.rel}:{s.node.lineno}"
+            rec = sym.record(fl.expand(s.node, st))
+            if rec is None:
+                raise AnalysisError(f"C01: indication construction at {loc} is not a plain keyword/positional construction")
+            flds = rec[1]
+            extra = SHB_MEDIA_OCTETS if cls.name == "LongPositionVector" else 0
+            data = sym.cslice(flds["data"])
+            ctx.ob("C01.ind-fwd", h.fi.short(), "data", data == (pk, want + extra, None),
+                   f"indication data = `{show(sym.norm(flds['data']))}`; payload starts after the {want}-octet extended header" +
+                   (f" and the {extra} media-dependent octets" if extra else "") + f" (`{pk}[{want + extra}:]`)", loc)
+            ln = sym.norm(flds["length"])
+            ok_len = isinstance(ln, ast.Call) and dotted(ln.func) == "len" and len(ln.args) == 1 and not ln.keywords \
+                and sym.cslice(ln.args[0]) == (pk, want + extra, None)
+            ctx.ob("C01.ind-fwd", h.fi.short(), "length", ok_len, f"length = `{show(ln)}`; must be the length of the delivered payload", loc)
+            want_pv = xdec if cls.name == "LongPositionVector" else attr_chain(xdec, "so_pv")
+            ctx.ob("C01.ind-fwd", h.fi.short(), "source-pv", sym.same(flds["source_position_vector"], want_pv),
+                   f"source_position_vector = `{show(sym.norm(flds['source_position_vector']))[:70]}`; must be the packet's SO PV", loc)
+            for k, w in (("upper_protocol_entity", "nh"), ("traffic_class", "tc")):
+                okf = bool(chp) and sym.same(flds[k], attr_chain(ast.Name(id=chp[0], ctx=ast.Load()), w)) and resolved(sym.norm(flds[k]))
+                ctx.ob("C01.ind-fwd", h.fi.short(), k, okf,
+                       f"{k} = `{show(sym.norm(flds[k]))}` (must be the received common header's {w})", loc)
+            if pins is None:
+                pins = dispatch_pins(ctx, pch, h)
+            ptt = sym.record(sym.norm(flds["packet_transport_type"]))
+            if "ht" in pins:
+                ht = ptt[1].get("header_type") if ptt else None
+                hst = ptt[1].get("header_subtype") if ptt else None
+                from_pkt = lambda e, w: bool(chp) and e is not None and sym.same(e, attr_chain(ast.Name(id=chp[0], ctx=ast.Load()), w))
+                ok_ht = ht is not None and (P.try_fold(h.fi.module, ht) == pins["ht"] or from_pkt(ht, "ht"))
+                if "hst" in pins:
+                    ok_hst = hst is not None and (P.try_fold(h.fi.module, hst) == pins["hst"] or from_pkt(hst, "hst"))
+                else:
+                    ok_hst = hst is not None and (is_default(sym.norm(hst)) or from_pkt(hst, "hst"))
+                ctx.ob("C01.ind-fwd", h.fi.short(), "transport-type", ok_ht and ok_hst,
+                       f"packet_transport_type = `{show(sym.norm(flds['packet_transport_type']))[:110]}`; the dispatcher calls this handler "
+                       f"for {pins['ht'][2]}" + (f"/{pins['hst'][2]}" if "hst" in pins else "") +
+                       " (sub-type: that constant, the received one, or unset when the dispatcher does not select on it)", loc)
     # ---- SHB media-dependent octets: same count on both sides
     shb = P.func(f"{ROUTER}.gn_data_request_shb")
-    md = [n for n in ast.walk(shb.node) if isinstance(n, ast.Assign) and dotted(n.targets[0]) == "media_dependant_data"]
-    mdl = len(P.try_fold(shb.module, md[0].value) or b"") if md else -1
-    ctx.ob("C01.frame", shb.short(), "media-dependent", mdl == 4,
-           f"SHB originator appends {mdl} media-dependent octets; the receiver skips 4", shb.loc)
+    fl = ctx.flows.get(shb)
+    sym = Sym(ctx, shb)
+    n_md = 0
+    for n in ast.walk(shb.node):
+        if not (isinstance(n, ast.Assign) and isinstance(n.value, ast.BinOp) and isinstance(n.value.op, ast.Add)):
+            continue
+        ops = G.concat_operands(fl.expand(n.value, fl.state_at(n)))
+        i_pv = [i for i, o in enumerate(ops) if isinstance(o, ast.Call) and any(
+            isinstance(t, FuncInfo) and t.cls is not None and t.cls.name == "LongPositionVector" and t.name == "encode"
+            for t in sym.targets(o))]
+        i_data = [i for i, o in enumerate(ops) if shb.params[1:] and sym.same(o, attr_chain(ast.Name(id=shb.params[1], ctx=ast.Load()), "data"))]
+        if len(i_pv) != 1 or len(i_data) != 1 or i_data[0] < i_pv[0]:
+            continue
+        n_md += 1
+        md = [P.try_fold(shb.module, o) for o in ops[i_pv[0] + 1:i_data[0]]]
+        mdl = sum(len(x) for x in md) if all(isinstance(x, bytes) for x in md) else -1
+        ctx.ob("C01.frame", shb.short(), f"media-dependent#{n_md}", mdl == SHB_MEDIA_OCTETS,
+               f"SHB originator puts {mdl if mdl >= 0 else 'a non-constant number of'} media-dependent octets between the SO PV and "
+               f"the payload; the receiver skips {SHB_MEDIA_OCTETS}", f"{shb.module.rel}:{n.lineno}")
+    if n_md == 0:
+        raise AnalysisError("C01: no `... + <SO PV>.encode() + ... + request.data` assembly found in gn_data_request_shb")
     # ---- BTP: 4-octet header on both sides
-    bi = P.func("btp.service_access_point.BTPDataIndication.initialize_with_gn_data_indication")
-    fl = ctx.flows.get(bi)
-    for k, s, st in fl.exits:
-        if k == "return":
-            kws = {kw.arg: kw.value for kw in s.value.keywords if kw.arg}
-            d = norm(pretty(unparse(fl.expand(kws["data"], st))))
-            ctx.ob("C01.frame", bi.short(), "btp-strip", d == "gn_data_indication.data[4:]",
-                   f"BTP payload = `{d}` (BTP header is 4 octets)", f"{bi.module.rel}:{s.lineno}")
-            ln = norm(pretty(unparse(fl.expand(kws["length"], st))))
-            ctx.ob("C01.ind-fwd", bi.short(), "btp-length", ln == "len(gn_data_indication.data[4:])", f"length = `{ln}`", f"{bi.module.rel}:{s.lineno}")
-            for k2, w in (("gn_packet_transport_type", "gn_data_indication.packet_transport_type"),
-                          ("gn_source_position_vector", "gn_data_indication.source_position_vector"),
-                          ("gn_traffic_class", "gn_data_indication.traffic_class")):
-                v = norm(pretty(unparse(fl.expand(kws.get(k2, ast.Constant(None)), st))))
-                ctx.ob("C01.ind-fwd", bi.short(), k2, v == w, f"{k2} = `{v}`", f"{bi.module.rel}:{s.lineno}")
+    hlens = {}
     for hn in ("BTPAHeader", "BTPBHeader"):
         tot, _ = writer_table(P, P.cls(f"btp.btp_header.{hn}").methods["encode"])
+        hlens[hn] = tot
         ctx.ob("C01.frame", f"btp.btp_header.{hn}.encode", "length", tot == 32, f"{hn} is {tot} bits on the wire", "")
-    ctx.floor("C01.frame", 14)
-    ctx.floor("C01.ind-fwd", 30)
+    bi = P.func("btp.service_access_point.BTPDataIndication.initialize_with_gn_data_indication")
+    fl = ctx.flows.get(bi)
+    sym = Sym(ctx, bi)
+    gn = bi.params[1]
+    gnd = sem.cx(src(f"{gn}.data"))
+    hoct = (hlens["BTPAHeader"] or 0) // 8
+    for k, s, st in fl.exits:
+        if k == "return":
+            loc = f"{bi.module.rel}:{s.lineno}"
+            rec = sym.record(fl.expand(s.value, st)) if s.value is not None else None
+            if rec is None:
+                raise AnalysisError(f"C01: {bi.short()} does not return a plain construction at {loc}")
+            flds = rec[1]
+            d = sym.cslice(flds["data"])
+            ctx.ob("C01.frame", bi.short(), "btp-strip", d == (gnd, hoct, None) and hlens["BTPAHeader"] == hlens["BTPBHeader"],
+                   f"BTP payload = `{show(sym.norm(flds['data']))}` (BTP header is {hoct} octets)", loc)
+            ln = sym.norm(flds["length"])
+            ok_len = isinstance(ln, ast.Call) and dotted(ln.func) == "len" and len(ln.args) == 1 and sym.cslice(ln.args[0]) == (gnd, hoct, None)
+            ctx.ob("C01.ind-fwd", bi.short(), "btp-length", ok_len, f"length = `{show(ln)}`", loc)
+            for k2, w in (("gn_packet_transport_type", "packet_transport_type"),
+                          ("gn_source_position_vector", "source_position_vector"),
+                          ("gn_traffic_class", "traffic_class")):
+                v2 = sym.norm(flds[k2])
+                ctx.ob("C01.ind-fwd", bi.short(), k2, sym.same(v2, f"{gn}.{w}") and not is_default(v2),
+                       f"{k2} = `{show(v2)}`" + (" (left at its default)" if is_default(v2) else ""), loc)
+    ctx.floor("C01.frame", 25)
+    ctx.floor("C01.ind-fwd", 34)
+
+
+# ---------------------------------------------------------------------------------------------------------------
+# BTP demultiplexing
+# ---------------------------------------------------------------------------------------------------------------
+def nh_dispatch(ctx) -> dict:
+    """parser qual -> CommonNH member name established by btp_data_indication at its call."""
+    P = ctx.prog
+    r = P.cls(BTPR)
+    bd = P.func(f"{BTPR}.btp_data_indication")
+    fl = ctx.flows.get(bd)
+    gn = bd.params[1]
+    out = {}
+    seen = set()
+    for c in P.calls_in(bd):
+        tg = [t for t in P.call_targets(bd, c, count=False) if isinstance(t, FuncInfo) and t.cls is r]
+        if not tg:
+            continue
+        fs = sem.facts(fl, c)
+        nhs = [m for m in BTP_HEADER_OF_NH if sem.holds(fs, f"{gn}.upper_protocol_entity == CommonNH.{m}")]
+        arg_ok = len(c.args) == 1 and isinstance(c.args[0], ast.Name) and c.args[0].id == gn and \
+            unparse(fl.expand(c.args[0], fl.state_at(c))) == gn
+        ok = len(nhs) == 1 and arg_ok
+        ctx.ob("C01.demux", bd.short(), f"nh-dispatch:{tg[0].name}", ok,
+               f"{tg[0].name} is invoked with the received indication under `upper_protocol_entity == CommonNH.<X>` for exactly one "
+               f"BTP type X (established: {nhs or 'none'})", f"{bd.module.rel}:{c.lineno}")
+        if ok:
+            for t in tg:
+                out[t.qual] = nhs[0]
+            seen.add(nhs[0])
+    ctx.ob("C01.demux", bd.short(), "nh-dispatch:both", seen == set(BTP_HEADER_OF_NH),
+           f"BTP-A and BTP-B indications are both dispatched (dispatched: {sorted(seen)})", bd.loc)
+    return out
 
 
 def demux(ctx):
     P = ctx.prog
     r = P.cls(BTPR)
+    parsers = nh_dispatch(ctx)
+    ind_cls = P.cls("btp.service_access_point.BTPDataIndication")
+    gn_cls = P.cls("geonet.service_access_point.GNDataIndication")
     n = 0
     for m in r.methods.values():
         fl = ctx.flows.get(m)
+        sym = Sym(ctx, m)
+        gets = []
         for c in P.calls_in(m):
-            if isinstance(c.func, ast.Attribute) and c.func.attr == "get" and "indication_callbacks" in unparse(c.func.value):
-                n += 1
-                st = fl.state_at(c)
-                kx = fl.expand(c.args[0], st)
-                # look through `<construction or copy>(destination_port=X, ...).destination_port`
-                for _ in range(4):
-                    if isinstance(kx, ast.Attribute) and kx.attr == "destination_port" and isinstance(kx.value, ast.Call):
-                        kw = [w.value for w in kx.value.keywords if w.arg == "destination_port"]
-                        if kw:
-                            kx = kw[0]
-                            continue
-                    break
-                k = norm(pretty(unparse(kx)))
-                hdr = "BTPBHeader" if "btp_b" in m.name else "BTPAHeader"
-                ok = k == f"{hdr}.decode(gn_data_indication.data).destination_port"
-                ctx.ob("C01.demux", m.short(), f"lookup#{n}", ok,
-                       f"handler is looked up by `{k[-110:]}`; must be the DESTINATION port decoded from this packet's BTP header",
-                       f"{m.module.rel}:{c.lineno}")
-                # the indication handed to the callback carries the decoded ports
+            if isinstance(c.func, ast.Attribute) and c.func.attr == "get" and dotted(c.func.value) == "self.indication_callbacks" and c.args:
+                gets.append((c, c.args[0]))
+        for node in ast.walk(m.node):
+            if isinstance(node, ast.Subscript) and isinstance(node.ctx, ast.Load) and dotted(node.value) == "self.indication_callbacks":
+                gets.append((node, node.slice))
+        if not gets:
+            continue
+        gn = m.params[1] if len(m.params) > 1 else "?"
+        nh = parsers.get(m.qual)
+        hdr_cls = P.cls(f"btp.btp_header.{BTP_HEADER_OF_NH[nh]}") if nh else None
+        hoct = (writer_table(P, hdr_cls.methods["encode"])[0] or 0) // 8 if hdr_cls else None
+
+        def decoded_header(e) -> bool:
+            """e is <header class of this BTP type>.decode(<the whole GN payload>)."""
+            if not (isinstance(e, ast.Call) and hdr_cls is not None and len(e.args) == 1 and not e.keywords):
+                return False
+            tg = sym.targets(e)
+            return len(tg) == 1 and isinstance(tg[0], FuncInfo) and tg[0].cls is hdr_cls and tg[0].name == "decode" and \
+                sym.cslice(e.args[0]) == (sem.cx(src(f"{gn}.data")), 0, None)
+
+        def hdr_field(e, field) -> bool:
+            e = sym.norm(e)
+            return isinstance(e, ast.Attribute) and e.attr == field and decoded_header(e.value)
+
+        for c, keyx in gets:
+            n += 1
+            st = fl.state_at(c)
+            k = sym.norm(fl.expand(keyx, st))
+            ctx.ob("C01.demux", m.short(), f"lookup#{n}", hdr_field(k, "destination_port"),
+                   f"handler is looked up by `{show(k)[-110:]}`; must be the DESTINATION port decoded from this packet's "
+                   f"{hdr_cls.name if hdr_cls else 'BTP header (type not established by the dispatcher)'}",
+                   f"{m.module.rel}:{c.lineno}")
+        # the indication handed to the looked-up callback: every field, on both paths
         for c in P.calls_in(m):
-            if isinstance(c.func, ast.Name) and c.func.id == "callback":
-                st = fl.state_at(c)
-                conds = {norm(pretty(f.xkey)): f.pol for f in st.facts if f.kind == "cond"}
-                arg = fl.expand(c.args[0], st)
-                a = norm(pretty(unparse(arg)))
-                ctx.ob("C01.demux", m.short(), "callback-arg-ports", "destination_port=" in a and ".decode(gn_data_indication.data).destination_port" in a,
-                       f"callback receives the indication with the decoded ports (`{a[:80]}`)", f"{m.module.rel}:{c.lineno}")
-                ctx.ob("C01.demux", m.short(), "callback-arg-payload",
-                       "BTPDataIndication.initialize_with_gn_data_indication(gn_data_indication)" in a,
-                       "callback receives the payload/PV/transport type taken from the GN indication", f"{m.module.rel}:{c.lineno}")
-    ctx.floor("C01.demux", 6)
-    bd = P.func(f"{BTPR}.btp_data_indication")
-    src = norm(unparse(bd.node))
-    ctx.ob("C01.demux", bd.short(), "nh-dispatch",
-           "ifgn_data_indication.upper_protocol_entity==CommonNH.BTP_B:self.btp_b_data_indication(gn_data_indication)" in src and
-           "elifgn_data_indication.upper_protocol_entity==CommonNH.BTP_A:self.btp_a_data_indication(gn_data_indication)" in src,
-           "BTP-A / BTP-B parsing selected by the common header's NH", bd.loc)
+            st = fl.state_at(c)
+            fx = fl.expand(c.func, st)
+            is_cb = (isinstance(fx, ast.Call) and isinstance(fx.func, ast.Attribute) and fx.func.attr == "get"
+                     and dotted(fx.func.value) == "self.indication_callbacks") or \
+                    (isinstance(fx, ast.Subscript) and dotted(fx.value) == "self.indication_callbacks")
+            if not is_cb:
+                continue
+            loc = f"{m.module.rel}:{c.lineno}"
+            rec = sym.record(sym.norm(fl.expand(c.args[0], st))) if len(c.args) == 1 and not c.keywords else None
+            if rec is None or rec[0] is not ind_cls:
+                ctx.ob("C01.demux", m.short(), "callback-arg", False,
+                       f"callback argument `{show(c.args[0]) if c.args else ''}` is not a BTPDataIndication whose fields can be followed "
+                       "to the received GN indication", loc)
+                continue
+            flds = rec[1]
+            port_src = {"destination_port": "destination_port",
+                        "source_port": "source_port" if nh == "BTP_A" else None,
+                        "destination_port_info": "destination_port_info" if nh == "BTP_B" else None}
+            for f, hf in port_src.items():
+                v = sym.norm(flds[f])
+                if hf is not None:
+                    ok = hdr_field(v, hf)
+                    txt = f"must be {hdr_cls.name if hdr_cls else 'the BTP header'}.decode({gn}.data).{hf}"
+                else:
+                    ok = nh is not None and (is_default(v) or (isinstance(v, ast.Constant) and v.value == 0))
+                    txt = f"BTP-{(nh or '?')[-1]} has no such field: must stay 0"
+                ctx.ob("C01.demux", m.short(), f"callback-arg:{f}", ok, f"{f} = `{show(v)[:90]}`; {txt}", loc)
+            pay = (sem.cx(src(f"{gn}.data")), hoct, None)
+            ctx.ob("C01.demux", m.short(), "callback-arg:data", hoct is not None and sym.cslice(flds["data"]) == pay,
+                   f"data = `{show(sym.norm(flds['data']))[:90]}`; must be the GN payload after the {hoct}-octet BTP header", loc)
+            ln = sym.norm(flds["length"])
+            ctx.ob("C01.demux", m.short(), "callback-arg:length",
+                   hoct is not None and isinstance(ln, ast.Call) and dotted(ln.func) == "len" and len(ln.args) == 1 and sym.cslice(ln.args[0]) == pay,
+                   f"length = `{show(ln)[:90]}`; must be the length of that payload", loc)
+            for f in sym.all_fields(ind_cls):
+                if f in port_src or f in ("data", "length"):
+                    continue
+                gf = f[3:] if f.startswith("gn_") else f
+                v = sym.norm(flds[f])
+                from_gn = gf in sym.all_fields(gn_cls) and sym.same(v, f"{gn}.{gf}") and not is_default(v)
+                must = f in ("gn_packet_transport_type", "gn_source_position_vector", "gn_traffic_class")
+                ctx.ob("C01.demux", m.short(), f"callback-arg:{f}", from_gn or (is_default(v) and not must),
+                       f"{f} = `{show(v)[:90]}`" + (" (left at its default)" if is_default(v) else "") +
+                       (f"; must be {gn}.{gf}" if must else f"; may only be {gn}.{gf} or unset"), loc)
+    ctx.floor("C01.demux", 31)
 
 
+# ---------------------------------------------------------------------------------------------------------------
+# request forwarding BTP -> GN
+# ---------------------------------------------------------------------------------------------------------------
 REQ_FWD = {   # GNDataRequest keyword <- BTPDataRequest attribute
     "upper_protocol_entity": "btp_type", "packet_transport_type": "gn_packet_transport_type", "area": "gn_area",
     "communication_profile": "communication_profile", "traffic_class": "traffic_class", "security_profile": "security_profile",
     "its_aid": "its_aid", "security_permissions": "security_permissions", "max_hop_limit": "gn_max_hop_limit",
     "max_packet_lifetime": "gn_max_packet_lifetime", "destination": "gn_destination_address",
 }
+HDR_FIELDS = {"BTP_A": {"destination_port": "destination_port", "source_port": "source_port"},
+              "BTP_B": {"destination_port": "destination_port", "destination_port_info": "destination_port_info"}}
 
 
 def req_fwd(ctx):
     P = ctx.prog
     fi = P.func(f"{BTPR}.btp_data_request")
     fl = ctx.flows.get(fi)
-    n = 0
+    sym = Sym(ctx, fi)
+    rq = fi.params[1]
+    gnreq = P.func(f"{ROUTER}.gn_data_request")
+    handed = [sem.cx(fl.expand(c.args[0], fl.state_at(c))) for c in calls_to(P, fi, gnreq) if len(c.args) == 1]
+    n = n_handed = 0
     for c in P.calls_in(fi):
         tg = [t for t in P.call_targets(fi, c, count=False) if isinstance(t, ClassInfo) and t.name == "GNDataRequest"]
         if not tg:
             continue
         n += 1
         st = fl.state_at(c)
-        conds = {norm(pretty(f.xkey)): f.pol for f in st.facts if f.kind == "cond"}
-        branch = "BTP_B" if conds.get("request.btp_type==CommonNH.BTP_B") else "BTP_A"
-        kws = {kw.arg: kw.value for kw in c.keywords if kw.arg}
-        for k, src in REQ_FWD.items():
-            if k not in kws:
+        loc = f"{fi.module.rel}:{c.lineno}"
+        fs = sem.facts(fl, c)
+        brs = [m for m in BTP_HEADER_OF_NH if sem.holds(fs, f"{rq}.btp_type == CommonNH.{m}")]
+        branch = brs[0] if len(brs) == 1 else f"?{n}"
+        rec = sym.record(fl.expand(c, st))
+        if rec is None:
+            raise AnalysisError(f"C01: GNDataRequest construction at {loc} cannot be followed")
+        flds = rec[1]
+        if len(brs) != 1:
+            ctx.ob("C01.req-fwd", fi.short(), f"{branch}:btp-type", False,
+                   "a GNDataRequest is built on a path where the BTP type of the request is not established (exactly one of "
+                   f"`{rq}.btp_type == CommonNH.BTP_A / BTP_B` must hold; found {brs})", loc)
+            continue
+        for k, a in REQ_FWD.items():
+            if is_default(sym.norm(flds[k])):
                 ctx.ob("C01.req-fwd", fi.short(), f"{branch}:{k}", False,
-                       f"GNDataRequest is built without `{k}`: BTPDataRequest.{src} never reaches the GeoNetworking layer" +
-                       (" (every GeoUnicast issued through BTP has no destination)" if k == "destination" else ""),
-                       f"{fi.module.rel}:{c.lineno}")
+                       f"GNDataRequest is built without `{k}`: BTPDataRequest.{a} never reaches the GeoNetworking layer" +
+                       (" (every GeoUnicast issued through BTP has no destination)" if k == "destination" else ""), loc)
                 continue
-            v = norm(pretty(unparse(fl.expand(kws[k], st))))
-            ctx.ob("C01.req-fwd", fi.short(), f"{branch}:{k}", v == f"request.{src}",
-                   f"{k} = `{v}` (must be request.{src})", f"{fi.module.rel}:{c.lineno}")
-        d = norm(pretty(unparse(fl.expand(kws.get("data", ast.Constant(None)), st))))
-        hdr = "BTPBHeader(destination_port=request.destination_port,destination_port_info=request.destination_port_info)" \
-            if branch == "BTP_B" else "BTPAHeader(destination_port=request.destination_port,source_port=request.source_port)"
-        ctx.ob("C01.req-fwd", fi.short(), f"{branch}:data", d == f"{hdr}.encode()+request.data",
-               f"GN payload = `{d[:120]}`; must be <BTP header of the request's ports>.encode() + request.data",
-               f"{fi.module.rel}:{c.lineno}")
+            v = sym.norm(flds[k])
+            ctx.ob("C01.req-fwd", fi.short(), f"{branch}:{k}", sym.same(v, f"{rq}.{a}") and resolved(v),
+                   f"{k} = `{show(v)}` (must be {rq}.{a})", loc)
+        d = sym.norm(flds["data"])
+        ops = G.concat_operands(d)
+        ok = len(ops) == 2 and sym.same(ops[1], f"{rq}.data") and resolved(ops[1])
+        hdr = None
+        if ok:
+            e = ops[0]
+            ok = isinstance(e, ast.Call) and isinstance(e.func, ast.Attribute) and e.func.attr == "encode" and not e.args and not e.keywords
+            hdr = sym.record(e.func.value) if ok else None
+            ok = hdr is not None and hdr[0].qual.endswith("btp.btp_header." + BTP_HEADER_OF_NH[branch]) and \
+                all(sym.same(hdr[1][hf], f"{rq}.{rf}") and not is_default(sym.norm(hdr[1][hf])) for hf, rf in HDR_FIELDS[branch].items()) and \
+                set(hdr[1]) == set(HDR_FIELDS[branch])
+        ctx.ob("C01.req-fwd", fi.short(), f"{branch}:data", ok,
+               f"GN payload = `{show(d)[:140]}`; must be {BTP_HEADER_OF_NH[branch]}(<the request's ports>).encode() + {rq}.data", loc)
+        ln = sym.norm(flds["length"])
+        ctx.ob("C01.req-fwd", fi.short(), f"{branch}:length",
+               isinstance(ln, ast.Call) and dotted(ln.func) == "len" and len(ln.args) == 1 and sem.cx(ln.args[0]) == sem.cx(d),
+               f"length = `{show(ln)[:90]}`; must be the length of the GN payload (BTP header + data)", loc)
+        if sem.cx(fl.expand(c, st)) in handed:
+            n_handed += 1
     if n != 2:
         raise AnalysisError(f"C01: {n} GNDataRequest constructions in btp_data_request (confirmed: 2)")
-    calls = [c for c in P.calls_in(fi) if isinstance(c.func, ast.Attribute) and c.func.attr == "gn_data_request"]
-    ctx.ob("C01.req-fwd", fi.short(), "handed-down", len(calls) == 2, f"{len(calls)} hand-over(s) to gn_data_request", fi.loc)
+    ctx.ob("C01.req-fwd", fi.short(), "handed-down", n_handed == n, f"{n_handed} of {n} built requests are handed to GNRouter.gn_data_request", fi.loc)
+    ctx.floor("C01.req-fwd", 27)
+
+
+# ---------------------------------------------------------------------------------------------------------------
+# delivery guards
+# ---------------------------------------------------------------------------------------------------------------
+def not_none_guard(fl, st, arg: ast.AST) -> bool:
+    """A must-fact at `st` says that `arg` (same version of the local) is not None / truthy."""
+    xa = fl.expand(arg, st)
+    w = {sem.atoms(ast.Compare(left=xa, ops=[ast.IsNot()], comparators=[ast.Constant(None)]), True)[0], sem.atoms(xa, True)[0]}
+    tok = unparse(xa)
+    for f in st.facts:
+        if f.kind == "cond" and tok in f.xkey and w & set(sem.atoms(f.xnode, f.pol)):
+            return True
+    return False
 
 
 def addressee(ctx):
     P = ctx.prog
-    h = [x for x in G.receive_handlers(ctx) if x.fi.name == "gn_data_indicate_guc"][0]
+    handlers = G.receive_handlers(ctx)
+    h = [x for x in handlers if x.ext_cls is not None and x.ext_cls.name == "GUCExtendedHeader"]
+    if len(h) != 1:
+        raise AnalysisError(f"C01: {len(h)} GeoUnicast receive handlers (confirmed: 1)")
+    h = h[0]
     fl = ctx.flows.get(h.fi)
+    xdec = fl.expand(h.decode_call, fl.state_at(h.decode_call))
+    mine = eq_atom(attr_chain(xdec, "de_pv", "gn_addr"), src("self.mib.itsGnLocalGnAddr"))
     for s in G.sinks_of(ctx, h):
         if s.kind == "deliver":
-            conds = {norm(pretty(f.xkey)): f.pol for f in fl.state_at(s.node).facts if f.kind == "cond"}
-            ok = any(v and re.fullmatch(r"GUCExtendedHeader\.decode\(packet\[0:48\]\)\.de_pv\.gn_addr==self\.mib\.itsGnLocalGnAddr", k)
-                     for k, v in conds.items())
-            ctx.ob("C01.addressee", h.fi.short(), "unicast-for-me", ok,
+            ctx.ob("C01.addressee", h.fi.short(), "unicast-for-me", mine in sem.facts(fl, s.node),
                    "GeoUnicast payload is delivered only when the packet's DE address is the own GN address",
                    f"{h.fi.module.rel}:{s.node.lineno}")
         if s.kind == "send":
-            conds = {norm(pretty(f.xkey)): f.pol for f in fl.state_at(s.node).facts if f.kind == "cond"}
-            ok = any((not v) and re.fullmatch(r"GUCExtendedHeader\.decode\(packet\[0:48\]\)\.de_pv\.gn_addr==self\.mib\.itsGnLocalGnAddr", k)
-                     for k, v in conds.items())
-            ctx.ob("C01.addressee", h.fi.short(), "forward-not-mine", ok, "GeoUnicast is forwarded only when addressed to another station",
-                   f"{h.fi.module.rel}:{s.node.lineno}")
+            ctx.ob("C01.addressee", h.fi.short(), "forward-not-mine", ("!" + mine) in sem.facts(fl, s.node),
+                   "GeoUnicast is forwarded only when addressed to another station", f"{h.fi.module.rel}:{s.node.lineno}")
     pch = P.func(f"{ROUTER}.process_common_header")
     fl = ctx.flows.get(pch)
     ups = [c for c in P.calls_in(pch) if dotted(c.func) == "self.indication_callback"]
+    hq = {x.fi.qual for x in handlers}
     for c in ups:
         st = fl.state_at(c)
-        conds = {norm(pretty(f.xkey)): f.pol for f in st.facts if f.kind == "cond"}
-        arg = norm(pretty(unparse(c.args[0])))
-        ok = any((k.endswith("isNone") and v is False) for k, v in conds.items()) or conds.get("self.indication_callbackandindicationisnotNone") is True
-        ctx.ob("C01.addressee", pch.short(), "upcall-only-with-indication", ok,
-               f"upper layer is called only with a real indication (`{arg}` not None)", f"{pch.module.rel}:{c.lineno}")
-        alts = {norm(pretty(unparse(a)))[:40] for a in fl.alternatives(c.args[0], st)}
-        bad = [a for a in alts if not (a.startswith("self.gn_data_indicate_") or a.startswith("GNDataIndication()"))]
-        ctx.ob("C01.addressee", pch.short(), "upcall-source", not bad,
-               f"the indication handed up is the handler's return value ({sorted(alts)})", f"{pch.module.rel}:{c.lineno}")
+        arg = c.args[0] if len(c.args) == 1 else ast.Constant(None)
+        ctx.ob("C01.addressee", pch.short(), "upcall-only-with-indication", not_none_guard(fl, st, arg),
+               f"upper layer is called only with a real indication (`{show(arg)}` not None)", f"{pch.module.rel}:{c.lineno}")
+        bad, good = [], 0
+        for a in fl.alternatives(arg, st):
+            tg = P.call_targets(pch, a, count=False) if isinstance(a, ast.Call) else []
+            if tg and all(isinstance(t, FuncInfo) and t.qual in hq for t in tg):
+                good += 1
+            elif tg and all(isinstance(t, ClassInfo) and t.name == "GNDataIndication" for t in tg) and not a.args and not a.keywords:
+                pass
+            else:
+                bad.append(show(a)[:40])
+        ctx.ob("C01.addressee", pch.short(), "upcall-source", not bad and good > 0,
+               f"the indication handed up is a receive handler's return value ({good} handler results" +
+               (f"; other sources: {bad}" if bad else "") + ")", f"{pch.module.rel}:{c.lineno}")
     if len(ups) != 1:
         raise AnalysisError(f"C01: {len(ups)} upper-layer call sites in process_common_header (confirmed: 1)")
+    ctx.floor("C01.addressee", 4)
+
+
+# ---------------------------------------------------------------------------------------------------------------
+# location service
+# ---------------------------------------------------------------------------------------------------------------
+def strip_none_alt(e: ast.AST) -> ast.AST:
+    """`X if c else None` / `None if c else X` -> X (the lookup itself)."""
+    while isinstance(e, ast.IfExp):
+        if isinstance(e.orelse, ast.Constant) and e.orelse.value is None:
+            e = e.body
+        elif isinstance(e.body, ast.Constant) and e.body.value is None:
+            e = e.orelse
+        else:
+            break
+    return e
+
+
+def is_locte_lookup(P, fi, e: ast.AST, key_cx: str) -> bool:
+    """e is LocationTable.get_entry(<key>)"""
+    e = strip_none_alt(e)
+    if not (isinstance(e, ast.Call) and len(e.args) == 1 and not e.keywords and sem.cx(e.args[0]) == key_cx):
+        return False
+    return any(isinstance(t, FuncInfo) and t.cls is not None and t.cls.name == "LocationTable" and t.name == "get_entry"
+               for t in P.call_targets(fi, e, count=False))
+
+
+def mentions_locte_state(P, fi, node: ast.AST) -> bool:
+    for n in ast.walk(node):
+        if isinstance(n, ast.Attribute) and n.attr == "ls_pending":
+            return True
+        if isinstance(n, ast.Call) and isinstance(n.func, ast.Attribute) and n.func.attr == "get_entry" and \
+                any(isinstance(t, FuncInfo) and t.cls is not None and t.cls.name == "LocationTable" for t in P.call_targets(fi, n, count=False)):
+            return True
+    return False
+
+
+def branch_atoms(fl, node: ast.AST) -> set:
+    """Canonical atoms of the tests of every enclosing `if` as they evaluated when the branch containing `node` was
+    entered (locals expanded at the test).  Unlike must-facts these are not killed by later mutations: they describe
+    the values READ by the test."""
+    out = set()
+    cur = node
+    while cur is not None:
+        par = fl.parent.get(id(cur))
+        if isinstance(par, ast.If) and cur is not par.test:
+            pol = any(cur is b for b in par.body)
+            if pol or any(cur is b for b in par.orelse):
+                out |= set(sem.atoms(fl.expand(par.test, fl.state_at(par)), pol))
+        cur = par
+    return out
+
+
+def dict_op(e: ast.AST, attr: str, meth: str):
+    """key expression when e is self.<attr>.<meth>(key, ...) else None"""
+    if isinstance(e, ast.Call) and isinstance(e.func, ast.Attribute) and e.func.attr == meth and dotted(e.func.value) == f"self.{attr}" and e.args:
+        return e.args[0]
+    return None
 
 
 def location_service(ctx):
     P = ctx.prog
-    cs = CallSummaries(P, ctx.flows)
     guc = P.func(f"{ROUTER}.gn_data_request_guc")
     fl = ctx.flows.get(guc)
+    rq = guc.params[1]
+    dest = sem.cx(src(f"{rq}.destination"))
     for c in P.calls_in(guc):
         if G.is_ll_send(P, guc, c):
             st = fl.state_at(c)
-            conds = {norm(pretty(f.xkey)): f.pol for f in st.facts if f.kind == "cond"}
-            known = any(v is False and k.endswith("isNone") and "get_entry(request.destination)" in k for k, v in conds.items())
-            not_pending = any((v is False and (k.endswith(".ls_pending") or k == "request.destinationinself._ls_packet_buffers"))
-                              for k, v in conds.items())
+            known = pend_entry = False
+            for f in st.facts:
+                if f.kind != "cond":
+                    continue
+                x = f.xnode
+                if isinstance(x, ast.Compare) and len(x.ops) == 1 and isinstance(x.ops[0], ast.Is) and not f.pol and \
+                        isinstance(x.comparators[0], ast.Constant) and x.comparators[0].value is None and is_locte_lookup(P, guc, x.left, dest):
+                    known = True
+                if isinstance(x, ast.Attribute) and x.attr == "ls_pending" and not f.pol and is_locte_lookup(P, guc, x.value, dest):
+                    pend_entry = True
+            fs = sem.facts_of_state(st)
+            not_pending = pend_entry or sem.holds(fs, f"{rq}.destination in self._ls_packet_buffers", False)
             ctx.ob("C01.ls", guc.short(), "send-needs-known-destination", known,
                    "a GeoUnicast is sent only when a LocTE of the destination exists", f"{guc.module.rel}:{c.lineno}")
             ctx.ob("C01.ls", guc.short(), "send-not-while-lookup-pending", not_pending,
@@ -261,68 +926,203 @@ def location_service(ctx):
     # the request that triggers / meets a lookup is stored on both branches of gn_ls_request
     ls = P.func(f"{ROUTER}.gn_ls_request")
     fl = ctx.flows.get(ls)
+    addr, breq = ls.params[1], ls.params[2]
     stores = []
     for n in ast.walk(ls.node):
-        if isinstance(n, ast.Call) and isinstance(n.func, ast.Attribute) and n.func.attr == "append" and "_ls_packet_buffers" in unparse(n.func.value):
-            stores.append(("pending", n))
-        if isinstance(n, ast.Assign) and isinstance(n.targets[0], ast.Subscript) and dotted(n.targets[0].value) == "self._ls_packet_buffers":
-            stores.append(("new", n))
-    kinds = {k for k, _ in stores}
-    ctx.ob("C01.ls", ls.short(), "request-buffered-on-both-branches", kinds == {"pending", "new"},
-           f"the triggering request is stored when a lookup is already pending and when a new one starts ({sorted(kinds)})", ls.loc)
-    for k, n in stores:
+        if isinstance(n, ast.Call) and isinstance(n.func, ast.Attribute) and n.func.attr in ("append", "extend", "insert"):
+            r = n.func.value
+            key = dict_op(r, "_ls_packet_buffers", "setdefault")
+            if key is None and isinstance(r, ast.Subscript) and dotted(r.value) == "self._ls_packet_buffers":
+                key = r.slice
+            if key is not None:
+                stores.append(("append", n, key))
+        if isinstance(n, ast.Assign) and len(n.targets) == 1 and isinstance(n.targets[0], ast.Subscript) and \
+                dotted(n.targets[0].value) == "self._ls_packet_buffers":
+            stores.append(("assign", n, n.targets[0].slice))
+    branches = set()
+    for how, n, key in stores:
         st = fl.state_at(n)
-        conds = {norm(pretty(f.xkey)): f.pol for f in st.facts if f.kind == "cond"}
-        if k == "pending":
-            ok = unparse(n.args[0]) == "buffered_request" and "setdefault(sought_gn_addr,[])" in norm(unparse(n.func.value))
-            ctx.ob("C01.ls", ls.short(), "pending:append", ok, "a request meeting a pending lookup is APPENDED to the buffer of that address",
-                   f"{ls.module.rel}:{n.lineno}")
+        loc = f"{ls.module.rel}:{n.lineno}"
+        pending = any(f.kind == "cond" and f.pol and isinstance(f.xnode, ast.Attribute) and f.xnode.attr == "ls_pending"
+                      and is_locte_lookup(P, ls, f.xnode.value, addr) for f in st.facts)
+        key_ok = unparse(fl.expand(key, st)) == addr
+        if pending:
+            branches.add("pending")
+            ok = how == "append" and n.func.attr == "append" and key_ok and len(n.args) == 1 and unparse(fl.expand(n.args[0], st)) == breq
+            ctx.ob("C01.ls", ls.short(), "pending:append", ok,
+                   "a request meeting a pending lookup is APPENDED to the buffer of that address" if ok else
+                   f"a request meeting a pending lookup is stored by `{show(n)[:90]}`: it must be appended to the buffer of `{addr}` "
+                   "(an assignment discards the requests already waiting)", loc)
         else:
-            v = norm(unparse(n.value))
-            ctx.ob("C01.ls", ls.short(), "new:store", v == "[buffered_request]ifbuffered_requestisnotNoneelse[]",
-                   f"a new lookup starts its buffer with the triggering request (`{v}`)", f"{ls.module.rel}:{n.lineno}")
-    # reply handler: pop, flush each through gn_data_request_guc, reset ls_pending, cancel timer
-    rp = P.func(f"{ROUTER}.gn_data_indicate_ls_reply")
-    src = norm(unparse(rp.node))
+            branches.add("new")
+            ok = how == "assign" and key_ok
+            if ok:
+                v = n.value
+                fs = sem.facts_of_state(st)
+                some = sem.holds(fs, f"{breq} is not None") or sem.holds(fs, breq)
+                if isinstance(v, ast.IfExp):
+                    ta = set(sem.atoms(v.test, True))
+                    if ta & {sem.want(f"{breq} is not None")[0], sem.want(breq)[0]}:
+                        full, empty = v.body, v.orelse
+                    elif ta & {sem.want(f"{breq} is None")[0], sem.want(f"not {breq}")[0]}:
+                        full, empty = v.orelse, v.body
+                    else:
+                        full = empty = None
+                    ok = isinstance(full, ast.List) and len(full.elts) == 1 and unparse(fl.expand(full.elts[0], st)) == breq and \
+                        isinstance(empty, ast.List) and not empty.elts
+                else:
+                    ok = some and isinstance(v, ast.List) and len(v.elts) == 1 and unparse(fl.expand(v.elts[0], st)) == breq
+            ctx.ob("C01.ls", ls.short(), "new:store", ok,
+                   f"a new lookup starts its buffer with the triggering request (`{show(n.value if how == 'assign' else n)[:80]}`)", loc)
+    ctx.ob("C01.ls", ls.short(), "request-buffered-on-both-branches", branches == {"pending", "new"},
+           f"the triggering request is stored when a lookup is already pending and when a new one starts ({sorted(branches)})", ls.loc)
+    # reply handler: pop, flush each through gn_data_request_guc, reset ls_pending, cancel timer - all for the reply's SO
+    rph = [x for x in G.receive_handlers(ctx) if x.ext_cls is not None and x.ext_cls.name == "LSReplyExtendedHeader"]
+    if len(rph) != 1:
+        raise AnalysisError(f"C01: {len(rph)} LS reply handlers (confirmed: 1)")
+    rp = rph[0].fi
     fl = ctx.flows.get(rp)
-    flush = [n for n in ast.walk(rp.node) if isinstance(n, ast.For) and "gn_data_request_guc" in unparse(n)]
-    ok = bool(flush)
+    xdec = fl.expand(rph[0].decode_call, fl.state_at(rph[0].decode_call))
+    so = sem.cx(attr_chain(xdec, "so_pv", "gn_addr"))
+    mine = eq_atom(attr_chain(xdec, "de_pv", "gn_addr"), src("self.mib.itsGnLocalGnAddr"))
+
+    def key_is_so(k, st) -> bool:
+        return k is not None and sem.cx(fl.expand(k, st)) == so
+
+    flush = []
+    for n in ast.walk(rp.node):
+        if isinstance(n, ast.For) and any(isinstance(b, ast.Expr) and isinstance(b.value, ast.Call) and guc in
+                                          P.call_targets(rp, b.value, count=False) for b in ast.walk(n)):
+            flush.append(n)
+    ok = len(flush) == 1
+    why = f"{len(flush)} loop(s) re-issue buffered requests"
     if ok:
-        st = fl.state_at(flush[0])
-        it = norm(pretty(unparse(fl.expand(flush[0].iter, st))))
-        ok = "_ls_packet_buffers.pop(" in it and norm(unparse(flush[0].body[0])) == f"self.gn_data_request_guc({unparse(flush[0].target)})"
-        conds = {norm(pretty(f.xkey)): f.pol for f in st.facts if f.kind == "cond"}
-        mine = any(v and k.endswith(".de_pv.gn_addr==self.mib.itsGnLocalGnAddr") for k, v in conds.items())
-        ctx.ob("C01.ls", rp.short(), "flush-only-requester", mine, "buffer is flushed by the station the reply is addressed to", rp.loc)
-        unguarded = [k for k, v in conds.items() if "ls_pending" in k or ("isNone" in k and "get_entry" in k and v is False)]
+        loop = flush[0]
+        st = fl.state_at(loop)
+        it = fl.expand(loop.iter, st)
+        while isinstance(it, ast.Call) and dotted(it.func) in ("list", "tuple") and len(it.args) == 1 and not it.keywords:
+            it = it.args[0]        # order-preserving copies
+        popped = key_is_so(dict_op(it, "_ls_packet_buffers", "pop"), st)
+        body_ok = False
+        for i, b in enumerate(loop.body):
+            if isinstance(b, ast.Expr) and isinstance(b.value, ast.Call) and guc in P.call_targets(rp, b.value, count=False):
+                body_ok = isinstance(loop.target, ast.Name) and len(b.value.args) == 1 and isinstance(b.value.args[0], ast.Name) and \
+                    b.value.args[0].id == loop.target.id and not b.value.keywords and \
+                    all(isinstance(p_, (ast.Expr, ast.Assign)) for p_ in loop.body[:i]) and not loop.orelse
+                break
+        ok = popped and body_ok
+        why = f"loop iterates `{show(it)[:90]}`" + ("" if popped else " - not the list popped from _ls_packet_buffers under the reply's SO address") + \
+            ("" if body_ok else "; the body does not unconditionally pass each element to gn_data_request_guc")
+        fs = sem.facts(fl, loop)
+        ctx.ob("C01.ls", rp.short(), "flush-only-requester", mine in fs, "buffer is flushed by the station the reply is addressed to", rp.loc)
+        unguarded = [pretty(repr(f)) for f in st.facts if f.kind == "cond" and mentions_locte_state(P, rp, f.xnode)]
         ctx.ob("C01.ls", rp.short(), "flush-unconditional", not unguarded,
                "the flush does not depend on the LocTE still carrying ls_pending (the placeholder may have been replaced)" if not unguarded
                else f"the flush is additionally guarded by {unguarded}: a reply arriving after the placeholder was replaced drops the buffer",
                rp.loc)
-    ctx.ob("C01.ls", rp.short(), "flush", ok, "every buffered request is re-issued through gn_data_request_guc from the popped buffer", rp.loc)
-    ctx.ob("C01.ls", rp.short(), "reset-pending", "entry.ls_pending=False" in src, "ls_pending is reset on reply", rp.loc)
-    ctx.ob("C01.ls", rp.short(), "cancel-timer", "timer.cancel()" in src and "_ls_timers.pop(" in src, "retransmit timer cancelled on reply", rp.loc)
+    ctx.ob("C01.ls", rp.short(), "flush", ok,
+           "every buffered request is re-issued, in order, through gn_data_request_guc from the buffer popped for the reply's SO address: " + why,
+           rp.loc)
+    resets = []
+    for n in ast.walk(rp.node):
+        if isinstance(n, ast.Assign) and len(n.targets) == 1 and isinstance(n.targets[0], ast.Attribute) and n.targets[0].attr == "ls_pending":
+            st = fl.state_at(n)
+            base = fl.expand(n.targets[0].value, st)
+            resets.append(isinstance(n.value, ast.Constant) and n.value.value is False and is_locte_lookup(P, rp, base, so)
+                          and mine in sem.facts_of_state(st))
+    ctx.ob("C01.ls", rp.short(), "reset-pending", any(resets) and all(resets),
+           "ls_pending of the LocTE of the reply's SO address is reset by the requester on reply", rp.loc)
+    cancels = []
+    for c in P.calls_in(rp):
+        if isinstance(c.func, ast.Attribute) and c.func.attr == "cancel" and not c.args:
+            st = fl.state_at(c)
+            cancels.append(any(key_is_so(dict_op(a, "_ls_timers", "pop"), st) for a in [fl.expand(c.func.value, st)])
+                           and mine in sem.facts_of_state(st))
+    ctx.ob("C01.ls", rp.short(), "cancel-timer", any(cancels) and all(cancels),
+           "the retransmit timer popped for the reply's SO address is cancelled by the requester on reply", rp.loc)
+    # give up after the last retry
     rt = P.func(f"{ROUTER}._ls_retransmit")
-    src = norm(unparse(rt.node))
-    ctx.ob("C01.ls", rt.short(), "give-up", "self._ls_packet_buffers.pop(sought_gn_addr,None)" in src and "entry.ls_pending=False" in src
-           and "count>=self.mib.itsGnLocationServiceMaxRetrans" in src,
-           "after the last retry the buffer is discarded and ls_pending reset", rt.loc)
-    ctx.floor("C01.ls", 10)
+    fl = ctx.flows.get(rt)
+    addr = rt.params[1]
+    gave_up = lambda node: any(sem.holds(branch_atoms(fl, node), f"{cnt} >= self.mib.itsGnLocationServiceMaxRetrans") for cnt in (
+        f"self._ls_retransmit_counters.get({addr}, 0)", f"self._ls_retransmit_counters[{addr}]"))
+    drops = []
+    for c in P.calls_in(rt):
+        k = dict_op(c, "_ls_packet_buffers", "pop")
+        if k is not None and unparse(fl.expand(k, fl.state_at(c))) == addr and gave_up(c):
+            drops.append(c)
+    for n in ast.walk(rt.node):
+        if isinstance(n, ast.Delete):
+            for t in n.targets:
+                if isinstance(t, ast.Subscript) and dotted(t.value) == "self._ls_packet_buffers" and \
+                        unparse(fl.expand(t.slice, fl.state_at(n))) == addr and gave_up(n):
+                    drops.append(n)
+    ctx.ob("C01.ls", rt.short(), "give-up:discard-buffer", bool(drops),
+           "once the retransmit counter has reached itsGnLocationServiceMaxRetrans the buffer of the sought address is discarded", rt.loc)
+    resets = []
+    for n in ast.walk(rt.node):
+        if isinstance(n, ast.Assign) and len(n.targets) == 1 and isinstance(n.targets[0], ast.Attribute) and n.targets[0].attr == "ls_pending":
+            st = fl.state_at(n)
+            resets.append(isinstance(n.value, ast.Constant) and n.value.value is False and
+                          is_locte_lookup(P, rt, fl.expand(n.targets[0].value, st), addr) and gave_up(n))
+    ctx.ob("C01.ls", rt.short(), "give-up:reset-pending", any(resets) and all(resets),
+           "once the retransmit counter has reached itsGnLocationServiceMaxRetrans ls_pending of the sought LocTE is reset", rt.loc)
+    ctx.floor("C01.ls", 12)
 
 
+# ---------------------------------------------------------------------------------------------------------------
+# security switch at origination
+# ---------------------------------------------------------------------------------------------------------------
 def sec_switch(ctx):
     """Every origination function treats the security switch the same way (a receiver with security ENABLED drops every
-    unsecured packet, so an originator that never secures a packet type cannot reach such receivers)."""
+    unsecured packet, so an originator that never secures a packet type cannot reach such receivers).
+
+    Decided per originating link-layer send (a send whose bytes mention a received header parameter is forwarding):
+    every reaching definition of the sent bytes, other than a constant initialiser, is made under a must-fact comparing
+    mib.itsGnSecurity with GnSecurity.ENABLED; under `== ENABLED` it carries a sign-service result, under `!= ENABLED`
+    it does not; both kinds exist."""
     P = ctx.prog
     router = P.cls(ROUTER)
+    on = sem.want("self.mib.itsGnSecurity == GnSecurity.ENABLED")[0]
     for name in ("gn_data_request_shb", "gn_data_request_gbc", "gn_data_request_guc", "gn_data_request_beacon",
                  "_send_ls_request_packet", "gn_data_indicate_ls_request"):
         m = router.methods.get(name)
         if m is None:
             raise AnalysisError(f"C01: origination function {name} vanished")
-        src = unparse(m.node)
-        consults = "itsGnSecurity" in src
-        signs = "sign_service.sign" in src
+        fl = ctx.flows.get(m)
+        signs = any(isinstance(c.func, ast.Attribute) and dotted(c.func.value) == "self.sign_service" for c in P.calls_in(m))
+        rx_hdrs = {p for p, ts in P.param_types(m).items()
+                   if any(isinstance(t, str) and t.split(".")[-1] in ("BasicHeader", "CommonHeader") for t in ts)}
+        verdicts = []
+        for c in P.calls_in(m):
+            if not G.is_ll_send(P, m, c):
+                continue
+            st = fl.state_at(c)
+            if any(isinstance(n, ast.Name) and n.id in rx_hdrs for alt in fl.alternatives(c.args[0], st) for n in ast.walk(alt)):
+                continue          # forwarding of a received packet
+            here = sem.facts_of_state(st)
+            arg = c.args[0]
+            defs = [(d.value, d.stmt) for d in fl.reaching(arg.id, st)] if isinstance(arg, ast.Name) else [(arg, c)]
+            n_sec = n_plain = n_bad = 0
+            for v, stmt in defs:
+                if isinstance(v, ast.Constant):
+                    continue      # initialiser
+                if v is None or not isinstance(stmt, ast.stmt) and stmt is not c:
+                    n_bad += 1
+                    continue
+                dst = fl.state_at(stmt)
+                fs = sem.facts_of_state(dst) | here
+                ops = G.concat_operands(fl.expand(v, dst))
+                secured = any(isinstance(o, ast.Attribute) and isinstance(o.value, ast.Call) and isinstance(o.value.func, ast.Attribute)
+                              and dotted(o.value.func.value) == "self.sign_service" for o in ops)
+                if secured and on in fs:
+                    n_sec += 1
+                elif not secured and ("!" + on) in fs:
+                    n_plain += 1
+                else:
+                    n_bad += 1
+            verdicts.append(n_sec > 0 and n_plain > 0 and n_bad == 0)
+        consults = bool(verdicts) and all(verdicts)
         ctx.ob("C01.sec-switch", m.short(), "consults-itsGnSecurity", consults,
                f"{name} " + ("selects secured/unsecured encapsulation from mib.itsGnSecurity" if consults else
                              ("signs only for one security profile and " if signs else "never secures its packets and ") +
